@@ -73,7 +73,30 @@ func virtualReturns(ff *an.FuncFacts) []vret {
 				loopHeader = true
 			}
 		}
-		if !merged || !pure || loopHeader || len(b.Preds) < 2 {
+		// … and only when a success was merged in: some edge brings a nil error together with a value.
+		// (The exit merge of a rotated loop, `for range n { … }; return nil, lastErr`, also merges a nil
+		// error — along the edge that skips the loop — but no value: that is one way out, not two.)
+		successMerged := false
+		if n := len(under); merged && n >= 2 {
+			if eph, ok := under[n-1].(*ssa.Phi); ok && eph.Block() == b {
+				for i, e := range eph.Edges {
+					k, isK := e.(*ssa.Const)
+					if !isK || !k.IsNil() {
+						continue
+					}
+					for j := 0; j < n-1; j++ {
+						v := under[j]
+						if vph, isPhi := v.(*ssa.Phi); isPhi && vph.Block() == b {
+							v = vph.Edges[i]
+						}
+						if vk, isVK := v.(*ssa.Const); !isVK || !vk.IsNil() {
+							successMerged = true
+						}
+					}
+				}
+			}
+		}
+		if !merged || !successMerged || !pure || loopHeader || len(b.Preds) < 2 {
 			out = append(out, vret{r: r, res: r.Results, fs: ff.AtInstr(r)})
 			continue
 		}
